@@ -589,4 +589,469 @@ theorem ensureParent_ext {lead : List Name} {j : Nat} (st : St) (hcl : Clean lea
 
 end parent2
 
+
+section verify
+variable {root : PPath}
+
+/-- a regular file in the parent position: the leaf phase does nothing and fails -/
+theorem leaf_parent_file (st : St) (lead : List Name) (mid last : Name) (hcl : Clean (lead ++ [mid, last]))
+    (hd : DirChain st.fs root lead lead.length) {ct : Bytes} {m : Nat}
+    (hf : st.fs (root ++ (lead ++ [mid])) = some (.file ct m)) (mode : Nat) (content : Bytes) :
+    buildFileFromBlob root (lead ++ [mid, last]) mode content st = (st, some .enotdir) ∧
+    buildGitlink root (lead ++ [mid, last]) st = (st, some .enotdir) := by
+  have h1 := resolve_parent_file st.fs root lead mid last false hcl hd hf
+  have h2 := resolve_parent_file st.fs root lead mid last true hcl hd hf
+  constructor
+  · simp only [buildFileFromBlob, lstat, h1]
+  · simp only [buildGitlink, isdir, stat, h2, sysMkdir, h1, St.apply]
+    simp
+
+theorem commonLen_spec : ∀ (a b : List Name), a.take (commonLen a b) = b.take (commonLen a b) ∧
+    commonLen a b ≤ a.length ∧ commonLen a b ≤ b.length := by
+  intro a
+  induction a with
+  | nil => intro b; cases b <;> simp [commonLen]
+  | cons x xs ih =>
+    intro b
+    cases b with
+    | nil => simp [commonLen]
+    | cons y ys =>
+      simp only [commonLen]
+      split
+      · rename_i h; subst h
+        obtain ⟨h1, h2, h3⟩ := ih ys
+        simp [h1, h2, h3]
+      · simp
+
+/-- the `for part in components[common:]` loop of verify_leading_dirs -/
+theorem verifyLoop_spec {fs : FS} {lead : List Name} (hcl : Clean lead) : ∀ (todo done : List Name) {safe' : List Name},
+    lead = done ++ todo → DirChain fs root lead done.length →
+    verifyLoop fs root done todo done = .ok safe' →
+    (∃ j, Verified fs root lead j) ∧ ∃ s, s ≤ lead.length ∧ safe' = lead.take s := by
+  intro todo
+  induction todo with
+  | nil =>
+    intro done safe' hl hd h
+    simp only [verifyLoop, Except.ok.injEq] at h
+    subst h
+    simp only [List.append_nil] at hl
+    subst hl
+    exact ⟨⟨lead.length, Nat.le_refl _, hd, Or.inl rfl⟩, lead.length, Nat.le_refl _, by simp⟩
+  | cons c rest ih =>
+    intro done safe' hl hd h
+    have hclc : Clean (done ++ [c]) := by
+      intro x hx; apply hcl x; rw [hl]
+      rcases List.mem_append.mp hx with h1 | h1
+      · exact List.mem_append_left _ h1
+      · exact List.mem_append_right _ (by simp at h1; simp [h1])
+    have hdd : DirChain fs root done done.length := by
+      intro i h1 h2
+      have := hd i h1 h2
+      rwa [hl, List.take_append_of_le_length h2] at this
+    have htake : lead.take (done.length + 1) = done ++ [c] := by
+      rw [hl, List.take_append]; simp [List.take_of_length_le]
+    have htake0 : lead.take done.length = done := by
+      rw [hl]; simp
+    simp only [verifyLoop, lstat_lex fs hclc hdd] at h
+    cases hP : fs (root ++ (done ++ [c])) with
+    | none =>
+      simp only [hP, Except.ok.injEq] at h
+      subst h
+      exact ⟨⟨done.length, by rw [hl]; simp, hd, Or.inr (Or.inl (by rw [htake]; exact hP))⟩,
+        done.length, by rw [hl]; simp, htake0.symm⟩
+    | some n =>
+      cases n with
+      | link t => simp [hP] at h
+      | dir =>
+        simp only [hP] at h
+        refine ih (done ++ [c]) (by rw [hl]; simp) ?_ h
+        intro i h1 h2
+        by_cases hi : i ≤ done.length
+        · exact hd i h1 hi
+        · have : i = done.length + 1 := by simp at h2; omega
+          subst this; rw [htake]; exact hP
+      | file ct md =>
+        simp only [hP] at h
+        cases rest with
+        | nil =>
+          simp only [verifyLoop, Except.ok.injEq] at h
+          subst h
+          have hlen : lead.length = done.length + 1 := by rw [hl]; simp
+          have hle : lead = done ++ [c] := hl
+          exact ⟨⟨done.length, by omega, hd, Or.inr (Or.inr ⟨hlen.symm, ct, md, by rw [hle]; exact hP⟩)⟩,
+            lead.length, Nat.le_refl _, by rw [List.take_length]; exact hle.symm⟩
+        | cons c2 r =>
+          exfalso
+          have hcl2 : Clean (done ++ [c, c2]) := by
+            intro x hx; apply hcl x; rw [hl]
+            rcases List.mem_append.mp hx with h1 | h1
+            · exact List.mem_append_left _ h1
+            · exact List.mem_append_right _ (by simp at h1; rcases h1 with rfl | rfl <;> simp)
+          have := resolve_parent_file fs root done c c2 false hcl2 hdd hP
+          simp only [verifyLoop, lstat] at h
+          have e : done ++ [c] ++ [c2] = done ++ [c, c2] := by simp
+          rw [e, this] at h
+          simp at h
+
+end verify
+
+
+section entry
+variable {root : PPath}
+
+/-- the cache invariant: every prefix of `safe_prefix` is a real directory NOW -/
+def Inv (root : PPath) (st : St) : Prop := DirChain st.fs root st.safe st.safe.length
+
+theorem verifyLeadingDirs_spec {fs : FS} {comps safe safe' : List Name} (hcl : Clean comps.dropLast)
+    (hne : comps.dropLast ≠ []) (hinv : DirChain fs root safe safe.length)
+    (h : verifyLeadingDirs fs root comps safe = .ok safe') :
+    (∃ j, Verified fs root comps.dropLast j) ∧ ∃ s, s ≤ comps.dropLast.length ∧ safe' = comps.dropLast.take s := by
+  simp only [verifyLeadingDirs, hne, if_false] at h
+  obtain ⟨h1, h2, h3⟩ := commonLen_spec safe comps.dropLast
+  generalize commonLen safe comps.dropLast = common at *
+  generalize comps.dropLast = lead at *
+  rw [h1] at h
+  refine verifyLoop_spec hcl (lead.drop common) (lead.take common) (List.take_append_drop _ _).symm ?_ h
+  have hlen : (lead.take common).length = common := by simp; omega
+  rw [hlen]
+  intro i hi1 hi2
+  have e : lead.take i = safe.take i := by
+    have a1 : lead.take i = (lead.take common).take i := by rw [List.take_take, Nat.min_eq_left hi2]
+    have a2 : safe.take i = (safe.take common).take i := by rw [List.take_take, Nat.min_eq_left hi2]
+    rw [a1, a2, h1]
+  rw [e]
+  exact hinv i hi1 (by omega)
+
+/-- what one loop iteration does, given the cache invariant -/
+structure EntryOK (root : PPath) (comps : List Name) (st st' : St) (err : Option Errno) : Prop where
+  log : ∀ m ∈ st'.log, m ∈ st.log ∨ ∃ i, 1 ≤ i ∧ i ≤ comps.length ∧ m.target = root ++ comps.take i
+  dirs : ∀ q, st.fs q = some .dir → st'.fs q = some .dir
+  inv : err = none → Inv root st'
+
+theorem processEntry_ok (v : Bytes → Bool) (e : Entry) (st : St) (hinv : Inv root st)
+    (hclean : validatePath v e.path = true → Clean (splitOn pathSep e.path)) :
+    EntryOK root (splitOn pathSep e.path) st (processEntry v root e st).1 (processEntry v root e st).2 := by
+  unfold processEntry
+  split
+  · exact ⟨fun m hm => Or.inl hm, fun q h => h, by simp⟩
+  · rename_i hval
+    have hval : validatePath v e.path = true := by simpa using hval
+    have hcl := hclean hval
+    simp only
+    generalize hcomps : splitOn pathSep e.path = comps at *
+    have hne : comps ≠ [] := by rw [← hcomps]; exact splitOn_ne_nil _ _
+    have hsplit : comps = comps.dropLast ++ [comps.getLast hne] := (List.dropLast_concat_getLast hne).symm
+    generalize hlead : comps.dropLast = lead at *
+    generalize comps.getLast hne = last at *
+    have hcll : Clean lead := fun c hc => hcl c (by rw [hsplit]; exact List.mem_append_left _ hc)
+    cases hver : verifyLeadingDirs st.fs root comps st.safe with
+    | error err => exact ⟨fun m hm => Or.inl hm, fun q h => h, by simp⟩
+    | ok safe' =>
+      simp only
+      -- the chain facts established by verify
+      have hV : (∃ j, Verified st.fs root lead j) ∧
+          (safe' = st.safe ∧ lead = [] ∨ ∃ s, s ≤ lead.length ∧ safe' = lead.take s) := by
+        by_cases hl0 : lead = []
+        · subst hl0
+          have : safe' = st.safe := by
+            simp only [verifyLeadingDirs, hlead, if_true] at hver
+            exact (Except.ok.inj hver).symm
+          exact ⟨⟨0, Nat.le_refl _, fun i h1 h2 => by omega, Or.inl rfl⟩, Or.inl ⟨this, rfl⟩⟩
+        · have := verifyLeadingDirs_spec (root := root) (comps := comps) (by rw [hlead]; exact hcll)
+            (by rw [hlead]; exact hl0) hinv hver
+          rw [hlead] at this
+          exact ⟨this.1, Or.inr this.2⟩
+      obtain ⟨⟨j, hVj⟩, hsafe⟩ := hV
+      generalize hst0 : ({ st with safe := safe' } : St) = st0
+      have hfs0 : st0.fs = st.fs := by rw [← hst0]
+      have hlog0 : st0.log = st.log := by rw [← hst0]
+      have hsafe0 : st0.safe = safe' := by rw [← hst0]
+      have hVj0 : Verified st0.fs root lead j := by rw [hfs0]; exact hVj
+      obtain ⟨hE1, hE2⟩ := ensureParent_ext st0 hcll hVj0
+      generalize hr : ensureParent root lead st0 = r at *
+      obtain ⟨st1, e1⟩ := r
+      cases e1 with
+      | some err =>
+        simp only [Step.andThen]
+        refine ⟨fun m hm => ?_, fun q h => hE1.dirs q (by rw [hfs0]; exact h), by simp⟩
+        rcases hE1.log m hm with h | ⟨i, h1, h2, h3⟩
+        · left; rw [← hlog0]; exact h
+        · right; exact ⟨i, h1, by rw [hsplit]; simp; omega, by rw [hsplit, List.take_append_of_le_length h2]; exact h3⟩
+      | none =>
+        simp only [Step.andThen]
+        have hE1' : Ext root comps st0 st1 := by rw [hsplit]; exact hE1.widen _
+        rcases hE2 rfl with hall | ⟨hsame, hj1, ct, md, hfile⟩
+        · -- every parent is a real directory: the leaf phase acts on the lexical path
+          have hleaf : Ext root comps st1 (if isGitlinkMode e.mode = true then buildGitlink root comps st1
+              else buildFileFromBlob root comps e.mode e.content st1).1 := by
+            rw [hsplit] at hcl ⊢
+            split
+            · exact buildGitlink_ext st1 hcl hall
+            · exact buildFileFromBlob_ext st1 e.mode e.content hcl hall
+          have hE := hE1'.trans hleaf
+          generalize (if isGitlinkMode e.mode = true then buildGitlink root comps st1
+              else buildFileFromBlob root comps e.mode e.content st1) = fin at *
+          refine ⟨fun m hm => ?_, fun q h => hE.dirs q (by rw [hfs0]; exact h), fun _ => ?_⟩
+          · rcases hE.log m hm with h | h
+            · left; rw [← hlog0]; exact h
+            · right; exact h
+          · -- the cache is sound again
+            have hsf : fin.1.safe = safe' := by rw [hE.safe, hsafe0]
+            have hchain : DirChain fin.1.fs root lead lead.length := fun i h1 h2 => hleaf.dirs _ (hall i h1 h2)
+            unfold Inv
+            rw [hsf]
+            rcases hsafe with ⟨hs, _⟩ | ⟨s, hs1, hs2⟩
+            · rw [hs]
+              exact fun i h1 h2 => hE.dirs _ (by rw [hfs0]; exact hinv i h1 h2)
+            · rw [hs2]
+              have hl : (lead.take s).length = s := by simp; omega
+              rw [hl]
+              exact (hchain.mono hs1).of_take (Nat.le_refl _)
+        · -- the last leading component is a regular file: nothing happens, the entry fails
+          have hsame' : st1 = st0 := hsame
+          rw [hsame']
+          have hlead2 : ∃ l2 mid, lead = l2 ++ [mid] := by
+            have : lead ≠ [] := by intro h; subst h; simp at hj1
+            exact ⟨lead.dropLast, lead.getLast this, (List.dropLast_concat_getLast this).symm⟩
+          obtain ⟨l2, mid, rfl⟩ := hlead2
+          have hd2 : DirChain st0.fs root l2 l2.length := by
+            have hjl : j = l2.length := by simp at hj1; omega
+            intro i h1 h2
+            have := hVj0.2.1 i h1 (by omega)
+            rwa [List.take_append_of_le_length h2] at this
+          have hcomps2 : comps = l2 ++ [mid, last] := by rw [hsplit]; simp
+          have hnoop := leaf_parent_file st0 l2 mid last (by rw [← hcomps2]; exact hcl) hd2 hfile e.mode e.content
+          rw [← hcomps2] at hnoop
+          have : (if isGitlinkMode e.mode = true then buildGitlink root comps st0
+              else buildFileFromBlob root comps e.mode e.content st0) = (st0, some .enotdir) := by
+            split
+            · exact hnoop.2
+            · exact hnoop.1
+          rw [this]
+          exact ⟨fun m hm => Or.inl (by rw [← hlog0]; exact hm), fun q h => by rw [hfs0]; exact h, by simp⟩
+
+end entry
+
+section run
+variable {root : PPath}
+
+theorem processEntry_invalid (v : Bytes → Bool) (e : Entry) (st : St) (h : validatePath v e.path = false) :
+    processEntry v root e st = (st, some .invalidPath) := by
+  simp [processEntry, h]
+
+/-- the whole loop: the log only grows by calls on lexical prefixes of validated entry paths, and after every
+completed iteration the cache is sound -/
+theorem runEntries_ok (v : Bytes → Bool) (hclean : ∀ p, validatePath v p = true → Clean (splitOn pathSep p)) :
+    ∀ (es : List Entry) (st : St), Inv root st →
+    (∀ m ∈ (runEntries v root es st).1.log, m ∈ st.log ∨ ∃ e ∈ es, validatePath v e.path = true ∧
+      ∃ i, 1 ≤ i ∧ i ≤ (splitOn pathSep e.path).length ∧ m.target = root ++ (splitOn pathSep e.path).take i) ∧
+    ((runEntries v root es st).2 = none → Inv root (runEntries v root es st).1) := by
+  intro es
+  induction es with
+  | nil => intro st hinv; exact ⟨fun m hm => Or.inl hm, fun _ => hinv⟩
+  | cons e es ih =>
+    intro st hinv
+    have hE := processEntry_ok (root := root) v e st hinv (hclean e.path)
+    simp only [runEntries]
+    by_cases hval : validatePath v e.path = true
+    · generalize processEntry v root e st = r at *
+      obtain ⟨st1, e1⟩ := r
+      cases e1 with
+      | some err =>
+        simp only [Step.andThen]
+        refine ⟨fun m hm => ?_, by simp⟩
+        rcases hE.log m hm with h | h
+        · exact Or.inl h
+        · exact Or.inr ⟨e, List.mem_cons_self, hval, h⟩
+      | none =>
+        simp only [Step.andThen]
+        obtain ⟨ih1, ih2⟩ := ih st1 (hE.inv rfl)
+        refine ⟨fun m hm => ?_, ih2⟩
+        rcases ih1 m hm with h | ⟨e', he', h⟩
+        · rcases hE.log m h with h | h
+          · exact Or.inl h
+          · exact Or.inr ⟨e, List.mem_cons_self, hval, h⟩
+        · exact Or.inr ⟨e', List.mem_cons_of_mem _ he', h⟩
+    · have hv : validatePath v e.path = false := by simpa using hval
+      rw [processEntry_invalid v e st hv]
+      simp only [Step.andThen]
+      exact ⟨fun m hm => Or.inl hm, by simp⟩
+
+end run
+
+section modes
+
+/-- a logged call is mode-canonical: a chmod carries `cleanup_mode(m) % 4096` for some `m` -/
+def GoodMut : Mut → Prop
+  | .chmod _ md => ∃ mode, md = cleanupMode mode % 4096
+  | _ => True
+
+def GoodLog (st : St) : Prop := ∀ m ∈ st.log, GoodMut m
+
+theorem GoodLog.apply {st : St} {r : Except Errno (FS × Mut)} (h : GoodLog st)
+    (hr : ∀ fs' m, r = .ok (fs', m) → GoodMut m) : GoodLog (st.apply r).1 := by
+  cases r with
+  | error e => exact h
+  | ok v =>
+    intro m hm
+    simp only [St.apply, List.mem_append, List.mem_cons, List.not_mem_nil, or_false] at hm
+    rcases hm with hm | rfl
+    · exact h m hm
+    · exact hr v.1 v.2 rfl
+
+theorem GoodLog.andThen {r : Step} {f : St → Step} (h : GoodLog r.1) (hf : ∀ st, GoodLog st → GoodLog (f st).1) :
+    GoodLog (r.andThen f).1 := by
+  obtain ⟨st1, e⟩ := r
+  cases e with
+  | none => exact hf st1 h
+  | some e => exact h
+
+theorem sysMkdir_good {fs : FS} {root : PPath} {cs : List Name} : ∀ fs' m, sysMkdir fs root cs = .ok (fs', m) → GoodMut m := by
+  intro fs' m h
+  simp only [sysMkdir] at h
+  split at h
+  · cases h
+  · split at h
+    · cases h
+    · cases h; trivial
+
+theorem sysUnlink_good {fs : FS} {root : PPath} {cs : List Name} : ∀ fs' m, sysUnlink fs root cs = .ok (fs', m) → GoodMut m := by
+  intro fs' m h
+  simp only [sysUnlink] at h
+  split at h
+  · cases h
+  · split at h
+    · cases h
+    · cases h
+    · cases h; trivial
+
+theorem sysSymlink_good {fs : FS} {root : PPath} {cs : List Name} {t : Bytes} :
+    ∀ fs' m, sysSymlink fs t root cs = .ok (fs', m) → GoodMut m := by
+  intro fs' m h
+  simp only [sysSymlink] at h
+  split at h
+  · cases h
+  · split at h
+    · cases h
+    · cases h; trivial
+
+theorem sysOpenWrite_good {fs : FS} {root : PPath} {cs : List Name} {t : Bytes} :
+    ∀ fs' m, sysOpenWrite fs t root cs = .ok (fs', m) → GoodMut m := by
+  intro fs' m h
+  simp only [sysOpenWrite] at h
+  split at h
+  · cases h
+  · split at h
+    · cases h
+    · cases h
+    · cases h; trivial
+    · cases h; trivial
+
+theorem sysChmod_good {fs : FS} {root : PPath} {cs : List Name} (mode : Nat) :
+    ∀ fs' m, sysChmod fs (cleanupMode mode) root cs = .ok (fs', m) → GoodMut m := by
+  intro fs' m h
+  simp only [sysChmod] at h
+  split at h
+  · cases h
+  · split at h
+    · cases h
+    · cases h; exact ⟨mode, rfl⟩
+    · cases h; exact ⟨mode, rfl⟩
+
+theorem mkdirsUp_good (root : PPath) (lead : List Name) : ∀ (cnt i : Nat) (st : St), GoodLog st →
+    GoodLog (mkdirsUp root lead i cnt st).1 := by
+  intro cnt
+  induction cnt with
+  | zero => intro i st h; exact h
+  | succ cnt ih =>
+    intro i st h
+    simp only [mkdirsUp]
+    exact GoodLog.andThen (h.apply sysMkdir_good) (fun st1 h1 => ih (i + 1) st1 h1)
+
+theorem writeAndChmod_good (root : PPath) (comps : List Name) (mode : Nat) (content : Bytes) (st : St) (h : GoodLog st) :
+    GoodLog (writeAndChmod root comps mode content st).1 :=
+  GoodLog.andThen (h.apply sysOpenWrite_good) (fun _ h1 => h1.apply (sysChmod_good mode))
+
+theorem buildFileFromBlob_good (root : PPath) (comps : List Name) (mode : Nat) (content : Bytes) (st : St) (h : GoodLog st) :
+    GoodLog (buildFileFromBlob root comps mode content st).1 := by
+  unfold buildFileFromBlob
+  split
+  · split
+    · exact h.apply sysSymlink_good
+    · exact writeAndChmod_good _ _ _ _ _ h
+  · exact h
+  · split
+    · exact GoodLog.andThen (h.apply sysUnlink_good) (fun _ h1 => h1.apply sysSymlink_good)
+    · split
+      · exact GoodLog.andThen (h.apply sysUnlink_good) (fun _ h1 => writeAndChmod_good _ _ _ _ _ h1)
+      · exact h
+      · split
+        · exact h
+        · exact writeAndChmod_good _ _ _ _ _ h
+
+theorem processEntry_good (v : Bytes → Bool) (root : PPath) (e : Entry) (st : St) (h : GoodLog st) :
+    GoodLog (processEntry v root e st).1 := by
+  unfold processEntry
+  split
+  · exact h
+  · simp only
+    split
+    · exact h
+    · refine GoodLog.andThen ?_ (fun st1 h1 => ?_)
+      · unfold ensureParent
+        split
+        · exact h
+        · exact mkdirsUp_good _ _ _ _ _ h
+      · split
+        · unfold buildGitlink
+          split
+          · exact h1
+          · exact h1.apply sysMkdir_good
+        · exact buildFileFromBlob_good _ _ _ _ _ h1
+
+theorem runEntries_good (v : Bytes → Bool) (root : PPath) : ∀ (es : List Entry) (st : St), GoodLog st →
+    GoodLog (runEntries v root es st).1 := by
+  intro es
+  induction es with
+  | nil => intro st h; exact h
+  | cons e es ih =>
+    intro st h
+    simp only [runEntries]
+    exact GoodLog.andThen (processEntry_good v root e st h) (fun st1 h1 => ih st1 h1)
+
+end modes
+
+
+section delete
+variable {root : PPath}
+
+/-- the delete of one old path is confined WHEN every leading component is a real directory on disk -/
+theorem deleteOld_ext (v : Bytes → Bool) (path : Bytes) (st : St) (lead : List Name) (last : Name)
+    (hsplit : splitOn pathSep path = lead ++ [last]) (hcl : Clean (lead ++ [last]))
+    (hd : DirChain st.fs root lead lead.length) :
+    Ext root (lead ++ [last]) st (deleteOld v root path st).1 := by
+  unfold deleteOld
+  split
+  · exact Ext.refl _ _ _
+  · simp only [hsplit]
+    rw [lstat_lex st.fs hcl hd]
+    cases hP : st.fs (root ++ (lead ++ [last])) with
+    | none => exact Ext.refl _ _ _
+    | some n =>
+      cases n with
+      | dir => exact Ext.refl _ _ _
+      | file c md =>
+        have hr := resolve_lex_nofollow st.fs root lead last hcl hd
+        apply Ext.of_apply st _ (lead ++ [last]).length ⟨by simp, Nat.le_refl _⟩
+        intro fs' m h
+        obtain ⟨ht, hnd, rfl⟩ := sysUnlink_spec hr h
+        exact ⟨by rw [List.take_length]; exact ht, set_keeps_dirs _ hnd⟩
+      | link t =>
+        have hr := resolve_lex_nofollow st.fs root lead last hcl hd
+        apply Ext.of_apply st _ (lead ++ [last]).length ⟨by simp, Nat.le_refl _⟩
+        intro fs' m h
+        obtain ⟨ht, hnd, rfl⟩ := sysUnlink_spec hr h
+        exact ⟨by rw [List.take_length]; exact ht, set_keeps_dirs _ hnd⟩
+
+end delete
 end Dulwich.Checkout
